@@ -83,7 +83,7 @@ func vxSetHas(h *HashSetOfValue, k int64) bool {
 }
 
 func VX_C17_hs_contains() {
-	h := vxHashSet("s", vxCap())
+	h := vxHashSet("s", vxCapLookup())
 	q := vxKey("q")
 	want := vxSetHas(h, q)
 	got, err := HashSetOfValueContains(nil, h, value.SmallInt(q).ToValue())
@@ -115,7 +115,7 @@ func VX_C17_hs_append() {
 }
 
 func VX_C17_hs_delete() {
-	h := vxHashSet("s", vxCap())
+	h := vxHashSet("s", vxCapLookup())
 	q, probe := vxKey("q"), vxKey("probe")
 	oldLen := h.Length()
 	qPresent := vxSetHas(h, q)
@@ -219,7 +219,7 @@ func VX_C17_hs_equal() {
 
 // iteration visits every live element exactly once and nothing else
 func VX_C17_hs_iter() {
-	h := vxHashSet("s", vxCap())
+	h := vxHashSet("s", vxCapLookup())
 	probe := vxKey("probe")
 	it := NewHashSetOfValueIterator(h)
 	seen, count := 0, 0
